@@ -158,6 +158,34 @@ def int_lower_bound(op, k):
     return None
 
 
+def reduced_index(t):
+    """(dividend, divisor, default) when t is a value reduced modulo a divisor: `x % n`, `x.checked_rem(n).unwrap_or(k)`, or the
+    same written as a match (`match x.checked_rem(n) { Some(v) => v, None => k }`: the merge of the payload and k).  Else None."""
+    t = T.strip(t)
+    while t[0] == "cast":
+        t = T.strip(t[2])
+    if t[0] == "binop" and t[1] == "Rem":
+        return (t[2], t[3], None)
+
+    def rem_payload(x):
+        x = T.strip(x)
+        if x[0] == "field" and x[1][0] == "downcast" and x[1][2] == "Some":
+            c = T.strip(x[1][1])
+            if c[0] == "call" and c[1].endswith("::checked_rem") and len(c[2]) == 2:
+                return c
+        return None
+    if t[0] == "call" and t[1].endswith("::unwrap_or") and len(t[2]) == 2:
+        c = T.strip(t[2][0])
+        if c[0] == "call" and c[1].endswith("::checked_rem") and len(c[2]) == 2:
+            return (c[2][0], c[2][1], t[2][1])
+    if t[0] == "phi" and len(t[1]) == 2:
+        for a, k in ((t[1][0], t[1][1]), (t[1][1], t[1][0])):
+            c = rem_payload(a)
+            if c is not None and T.fold_int(k) is not None:
+                return (c[2][0], c[2][1], k)
+    return None
+
+
 def quantified(program, t):
     """For `iter.any(|x| x OP k)` / `iter.all(|x| x OP k)` (also `contains(&k)`): ("exists", iter-or-container term, OP, k) or
     ("forall", ..) with OP in Eq/Ne and the element on the left - so that `any(|b| b != 0)`, `!all(|b| b == 0)` and
@@ -286,7 +314,7 @@ def canon_cond(program, atom, label, blk=None):
                 ln = ("call", "core::slice::<impl [T]>::len", (place[2][0],))
                 return [("cmp", "Ge" if lab == "Some" else "Lt", ln, ("const", n, None, "usize"), True, blk)]
         # `s.get(a..b)` (constant a <= b) is Some exactly when `s.len() >= b`
-        if place[0] == "call" and place[1].endswith("::get") and ("[T]" in place[1] or "slice" in place[1]) and len(place[2]) == 2:
+        if place[0] == "call" and place[1].endswith("::get") and ("[T]" in place[1] or "slice::" in place[1]) and len(place[2]) == 2:
             r_ = T.strip(place[2][1])
             lab = label[1][0] if isinstance(label, tuple) and label and label[0] == "else" and len(label[1]) == 1 else label
             if r_[0] == "agg" and (r_[2] or "").endswith("ops::Range") and len(r_[4]) == 2 and lab in ("Some", "None"):
@@ -294,6 +322,10 @@ def canon_cond(program, atom, label, blk=None):
                 if a_ is not None and b_ is not None and a_ <= b_:
                     ln = ("call", "core::slice::<impl [T]>::len", (place[2][0],))
                     return [("cmp", "Ge" if lab == "Some" else "Lt", ln, ("const", b_, None, "usize"), True, blk)]
+            # `s.get(i)` (an index) is Some exactly when `i < s.len()`
+            if r_[0] != "agg" and lab in ("Some", "None") and "Range" not in place[1]:
+                ln = ("call", "core::slice::<impl [T]>::len", (place[2][0],))
+                return [("cmp", "Lt" if lab == "Some" else "Ge", place[2][1], ln, True, blk)]
         if isinstance(label, tuple) and label and label[0] == "else":
             rest = label[1]
             if len(rest) == 1:
